@@ -186,3 +186,40 @@ Proof.
     rewrite (mrnd_opp rnd64 M), (rnd64_bpow 10) by lia. simpl; lra. }
   rewrite H, H'. lra.
 Qed.
+
+(* ------------------------------------------------------------------ the high pass: one step and a run *)
+Definition B1021 : R := bpow radix2 1021.
+Lemma B1021_twice : B1021 + B1021 = B1022.
+Proof. unfold B1021, B1022. change 1022%Z with (1021 + 1)%Z. rewrite bpow_plus. simpl (bpow radix2 1). lra. Qed.
+Lemma B1021_pos : 0 < B1021.
+Proof. apply bpow_gt_0. Qed.
+
+Lemma r64_hpf_iter_eq a o xi x :
+  hpf_iter (Rnd_ops rnd64) a (o, xi) x = (rnd64 (a * rnd64 (rnd64 (o + x) - xi)), x).
+Proof. reflexivity. Qed.
+
+Theorem f64_hpf_iter_refines (alpha o xi x : pfloat) :
+  ffinite alpha = true -> ffinite o = true -> ffinite xi = true -> ffinite x = true ->
+  0 <= f2r alpha <= 1 -> Rabs (f2r o) <= B1021 -> Rabs (f2r xi) <= B1021 -> Rabs (f2r x) <= B1021 ->
+  frel (fst (hpf_iter F64_ops alpha (o, xi) x)) (fst (hpf_iter (Rnd_ops rnd64) (f2r alpha) (f2r o, f2r xi) (f2r x))) /\
+  snd (hpf_iter F64_ops alpha (o, xi) x) = x.
+Proof.
+  intros Fa Fo Fi Fx Ha Ho Hi Hx. split; [|reflexivity].
+  pose proof (frel_f2r _ Fa) as Ra. pose proof (frel_f2r _ Fo) as Ro.
+  pose proof (frel_f2r _ Fi) as Ri. pose proof (frel_f2r _ Fx) as Rx.
+  pose proof B1021_twice as T1. pose proof B1022_twice as T2. pose proof B1021_pos as P1.
+  unfold hpf_iter. cbn [fst snd].
+  assert (S1 : Rabs (f2r o + f2r x) <= B1022).
+  { rewrite <- T1. eapply Rle_trans; [apply Rabs_triang|]. lra. }
+  assert (R1 : frel (add F64_ops o x) (add (Rnd_ops rnd64) (f2r o) (f2r x))).
+  { apply frel_add; [exact Ro|exact Rx|]. apply no_overflow_le with (m := B1022); [exact S1|exact B1022_fix|exact B1022_lt]. }
+  assert (S2 : Rabs (add (Rnd_ops rnd64) (f2r o) (f2r x) - f2r xi) <= bpow radix2 1023).
+  { rewrite <- T2. unfold Rminus. eapply Rle_trans; [apply Rabs_triang|]. rewrite Rabs_Ropp.
+    apply Rplus_le_compat; [cbn [add Rnd_ops]; apply rnd64_abs_le; [exact S1|exact B1022_fix]|]. lra. }
+  assert (R2 : frel (sub F64_ops (add F64_ops o x) xi) (sub (Rnd_ops rnd64) (add (Rnd_ops rnd64) (f2r o) (f2r x)) (f2r xi))).
+  { apply frel_sub; [exact R1|exact Ri|]. apply no_overflow_le with (m := bpow radix2 1023); [exact S2|exact B1023_fix|exact B1023_lt]. }
+  apply frel_mul; [exact Ra|exact R2|].
+  apply no_overflow_le with (m := bpow radix2 1023); [|exact B1023_fix|exact B1023_lt].
+  rewrite Rmult_comm. apply Rabs_mul_01; [exact Ha|].
+  cbn [sub Rnd_ops]. apply rnd64_abs_le; [exact S2|exact B1023_fix].
+Qed.
